@@ -14,9 +14,9 @@ Nunavut's edits (see EXCLUDED; the list is copied into REPORT.md).
 """
 
 EXCLUDED = [
-    "template text containing \\x0b \\x0c \\x1c-\\x1e \\x85 U+2028 U+2029 (2.x splits the source with str.splitlines, 3.x only on \\r\\n|\\r|\\n)",
+    "[known finding snapshot-bug-exotic-line-breaks-in-template-source, probed separately] template text containing \\x0b \\x0c \\x1c-\\x1e \\x85 U+2028 U+2029 (2.x splits the source with str.splitlines, 3.x only on \\r\\n|\\r|\\n)",
     "float literals with exponent or digit separators (1e3, 1_000): 3.x lexer only",
-    "comparison chains (two or more operators) over constants only: constant folding keeps only the last comparison in the 2.11.dev snapshot (`85 < 12 not in [true]`); generated chains contain a context variable",
+    "[known finding snapshot-bug-const-compare-chain, probed separately] comparison chains (two or more operators) over constants only: constant folding keeps only the last comparison in the 2.11.dev snapshot (`85 < 12 not in [true]`); generated chains contain a context variable",
     "inline `x if c` without else (3.x yields a plain Undefined even under StrictUndefined)",
     "the `+` modifier at a tag end (`+%}`, `+#}`): 3.x only — generated comments never end in `+`",
     "dotted filter names (`x|string.split()`): accepted by 3.x, 'no filter named' in 2.x — postfix operands are parenthesised",
@@ -24,7 +24,7 @@ EXCLUDED = [
     "string filters on non-string input (wordcount, title … of an int/dict: TypeError in 2.x, coerced in 3.x) — operands are typed and parenthesised",
     "string filters applied to Markup values (escaped strings, block-set variables, macro/caller results under autoescape): center, striptags, title, indent keep or drop Markup-ness differently in 2.x and 3.x; Markup values are only printed or concatenated",
     "{% set x | filter %}…{% endset %} (Markup-ness of the result under autoescape differs between the versions)",
-    "loop.length / loop.revindex / loop.revindex0 inside a filtered loop `for x in xs if c` (off by one in the 2.11.dev snapshot, with or without Nunavut's edits)",
+    "[known finding snapshot-bug-loop-length-of-iterator, probed separately] loop.length / loop.revindex / loop.revindex0 inside a filtered loop `for x in xs if c` (off by one in the 2.11.dev snapshot, with or without Nunavut's edits)",
     "{% include %} inside a {% call %} body (caller() then prints a generator object with its address, in both engines)",
     "tests added after 2.10: boolean, false, true, integer, float, filter, test",
     "unknown filters / tests (compile-time error in 2.x, may be a run-time error in a dead branch in 3.x)",
@@ -684,6 +684,38 @@ class Gen:
             child += self.var(self.e_out(rs(), 1)) + self.text(3)
         tpl[main_name] = child
 
+    def private_names(self, tpl, main_name, ctx):
+        """`_`-prefixed and dunder-like identifiers assigned at template level (plain, tuple and block form) and read inside
+        blocks (same template / child), macros, includes and plain expressions; sometimes the context supplies them too"""
+        r = self.r
+        self.features.add("private-names")
+        names = r.sample(["_p", "__d__", "_x1", "_", "__q", "_T"], 3)
+        a, b, c = names
+        sets = self.tag(f"set {a} = {r.choice(['7', repr('priv'), 'i0', '[1, 2]'])}") + self.tag(f"set {b}, {c} = {r.choice(['1, 2', '(s0, i1)', '[3, 4]'])}")
+        if r.random() < 0.5:
+            sets += self.tag("set _blk") + "B" + self.var(a) + self.tag("endset")
+            names = names + ["_blk"]
+        if r.random() < 0.4:
+            ctx[a] = "from-context"
+            self.features.add("private-name-also-in-context")
+        reads = "".join(self.var(n) for n in names)
+        tpl["privreader"] = "[" + "".join("{{ %s }}" % n for n in names[:3]) + "]"
+        src = tpl[main_name]
+        if "extends" in src.split("%}")[0] and "if b0" not in src.split("%}")[0]:
+            # child template: assignments after the extends tag, reads inside an overriding block
+            head, _, rest = src.partition("%}")
+            blk = "tail" if "block tail" not in rest else "inner" if "block inner" not in rest else None
+            extra = (self.tag(f"block {blk}") + "P:" + reads + self.tag("endblock")) if blk else ""
+            tpl[main_name] = head + "%}" + sets + rest + extra
+        else:
+            use = [self.tag("block priv" + str(self.fresh(""))) + "P:" + reads + self.tag("endblock"),
+                   self.tag(f"macro _m()") + reads + self.tag("endmacro") + self.var("_m()"),
+                   self.tag("include 'privreader'"), reads,
+                   self.tag("for _i in [1, 2]") + self.var("_i") + self.var(a) + self.tag("endfor"),
+                   self.tag("if true") + self.tag("block privin" + str(self.fresh(""))) + self.var(b) + self.tag("endblock") + self.tag("endif")]
+            r.shuffle(use)
+            tpl[main_name] = sets + src + "".join(use[: r.randint(2, 5)])
+
     # ---------------------------------------------------------------- whole template sets
     def library(self):
         return ("{% macro twice(x) %}{{ x * 2 }}{% endmacro %}\n"
@@ -709,6 +741,8 @@ class Gen:
             self.extends_family(tpl, main_name)
         else:
             tpl[main_name] = self.body(sc, 3, r.randint(2, 6))
+        if r.random() < 0.35:
+            self.private_names(tpl, main_name, ctx)
         # every template and every included / imported / extended partial ends in 0..3 line breaks of some style
         for name in list(tpl):
             tpl[name] = tpl[name] + self.ending()
